@@ -17,13 +17,17 @@ def run(ctx):
     for i in range(ctx.n(250, 2500)):
         v = values.build(rng, rng.choice([1, 2, 3, 4]), [], odd_tz=False)
         o = c02.opts(rng); o['encoding'] = None
-        cases.append(['dump', [values.encode(v), o], rng.choice(['py', 'py', 'c']), cap])
+        cases.append(['dump', [values.encode(v), o], rng.choice(['py', 'py', 'c', 'py_path', 'c_path']), cap])
     docs = gen.mutated_corpus(rng, ctx.n(200, 2000), with_corpus=False)
     for t in docs:
         try: t.encode('utf-8')
         except UnicodeEncodeError: continue
         k = rng.choice([1, 1, 30, 200]); t = t * max(1, min(k, 40000 // (len(t) + 1)))          # several refill blocks, bounded total size
-        cases.append(['load', [t, rng.choice([[], [1] * 50, [7, 100, 4096], [4095, 2]]), rng.random() < 0.5], rng.choice(['py', 'py', 'c']), cap])
+        cases.append(['load', [t, rng.choice([[], [1] * 50, [7, 100, 4096], [4095, 2]]), rng.random() < 0.5], rng.choice(['py', 'py', 'c', 'py_path', 'c_path']), cap])
+    for t in ('a: {b: x, c: [y]}\nk0: [p, {q: r}]\n', '- [u, v]\n- {a: {b: w}, k0: [1, 2]}\n' * 30, '--- {a: {b: x}}\n--- [[q, r], s]\n' * 200):      # documents the path resolvers bite on
+        for be in ('py_path', 'c_path'):
+            for sizes in ([], [1] * 50, [7, 100, 4096]):
+                cases.append(['load', [t, sizes, rng.random() < 0.5], be, cap])
     for n in (1, 2, 3, 5, 8):
         for be in ('py', 'c'):
             for k0 in range(0, 14, 1 if not ctx.quick() else 3):          # k0 shifts which exception class meets which fault point
@@ -36,4 +40,12 @@ def run(ctx):
 def replay(ctx, path):
     d = json.load(open(path)); ctx.rule = RULE
     ctx.regen(); ctx.prove()
+    c = d.get('case', {})
+    if c.get('kind_of_fault') in ('ctor', 'repr'):
+        corr.direct(ctx, 'c19', [[c['kind_of_fault'], c['payload'], c.get('backend', 'py'), 400, k0] for k0 in range(14)], describe=lambda c: dict(kind_of_fault=c[0], payload=c[1], backend=c[2]))
+    elif c.get('kind_of_fault') == 'dump':
+        corr.direct(ctx, 'c19', [['dump', c['payload'], c.get('backend', 'py'), 400]], describe=lambda c: dict(kind_of_fault=c[0], payload=c[1], backend=c[2]))
+    elif c.get('kind_of_fault') == 'load' and isinstance(c.get('payload'), dict):
+        p = c['payload']
+        corr.direct(ctx, 'c19', [['load', [p['text'], p['sizes'], p['binary']], c.get('backend', 'py'), 400]], describe=lambda c: dict(kind_of_fault=c[0], payload=dict(text=c[1][0][:2000], sizes=c[1][1][:6], binary=c[1][2]), backend=c[2]))
     return ctx.finish()
